@@ -82,6 +82,9 @@ func readFeatureFlag(r *jreader.Reader, flag *FeatureFlag) {
 			flag.TrackEventsFallthrough = r.Bool()
 		case "debugEventsUntilDate":
 			val, _ := r.Float64OrNull() // val will be zero if null
+			if val < 0 {
+				val = 0 // the time is unsigned; converting a negative float64 is implementation-defined
+			}
 			flag.DebugEventsUntilDate = ldtime.UnixMillisecondTime(val)
 		case "version":
 			flag.Version = r.Int()
